@@ -396,10 +396,11 @@ func buildRestoreNode(p *Program, tier string, which string) ([]*Unit, []UnitErr
 // ---- label classes of the shared restorer units ----
 
 var (
-	rePosSpace = regexp.MustCompile(`#(ensures|join\d+\.\d+|loop\d+-(entry|preserve(\.\d+)?)):(foreach_)?(inv|cursor_monotone|lines_prefix|comments_prefix|count|backing|old_rows|frame_new)$|#call:.*:inv@\d+$|#pos:|#frame|#loop\d+-(entry|preserve(\.\d+)?):(count|length|cursor|offsets|prefix|at_newline|inv|sorted|pos|last|rest|lines_prefix|comments_prefix|cursor_monotone|comments|lines|untouched|index)$|#ensures:(added|cursor|offsets|prefix|at_newline|at_newline_kept|sorted|last|single_line_is_noop|covers_cursor|covers_lines|covers_comments|positive_or_empty|ends_at_newline|empty_is_noop)$`)
+	rePosSpace = regexp.MustCompile(`#(ensures|join\d+\.\d+|loop\d+-(entry|preserve(\.\d+)?)):(foreach_)?(inv|cursor_monotone|lines_prefix|comments_prefix|lines_array_old_or_fresh|count|backing|old_rows|frame_new)$|#call:.*:inv@\d+$|#pos:|#frame|#loop\d+-(entry|preserve(\.\d+)?):(count|length|cursor|offsets|prefix|at_newline|inv|sorted|pos|last|rest|lines_prefix|comments_prefix|cursor_monotone|comments|lines|untouched|index|lines_array_old_or_fresh)$|#ensures:(lines_array_old_or_fresh|added|cursor|offsets|prefix|at_newline|at_newline_kept|sorted|last|single_line_is_noop|covers_cursor|covers_lines|covers_comments|positive_or_empty|ends_at_newline|empty_is_noop)$`)
 	reMaps     = regexp.MustCompile(`#(ensures|join\d+\.\d+|loop\d+-(entry|preserve(\.\d+)?)):(foreach_)?(maps|mapped|mapped_back|mapped_self|ast_map_grows|dst_map_grows|fresh_unless_duplicate|result_not_nil)$|#call:.*:maps@\d+$|#maps:created_node_mapped`)
 	reFields   = regexp.MustCompile(`#fields:|#loop\d+-(entry|preserve(\.\d+)?):foreach_(elems|length)$`)
 	reTape     = regexp.MustCompile(`#tape:`)
+	reSpaces   = regexp.MustCompile(`#tape:(qualified\.)?(before_first|after_last|two_spaces|no_decorations)$`)
 	reDup      = regexp.MustCompile(`#ensures:duplicates_rejected$|#maps:registered_before_recursion`)
 )
 
@@ -418,8 +419,12 @@ func init() {
 		ID:       "C12",
 		Title:    "Restored ASTs carry a coherent position space",
 		Packages: []string{pkgDecorator},
-		Build:    func(p *Program, tier string) ([]*Unit, []UnitError) { return restoreUnitsOf(p, tier, true) },
-		Select:   func(n string) bool { return rePosSpace.MatchString(n) },
+		Build: func(p *Program, tier string) ([]*Unit, []UnitError) {
+			us, es := restoreUnitsOf(p, tier, true)
+			us2, es2 := buildRestoreFile(p, tier)
+			return append(us, us2...), append(es, es2...)
+		},
+		Select:   func(n string) bool { return rePosSpace.MatchString(n) || strings.Contains(n, "RestoreFile") },
 		Siblings: "C03 (fields), C04 (tape), C06 (duplicates), C11 (maps)",
 		Assumptions: []string{
 			"token.FileSet.Base() >= 1 and AddFile at Base() never overlaps an earlier file (assumed contract of go/token)",
